@@ -241,6 +241,13 @@ func Minimise(t *testing.T, world WorldFunc, o *Outcome, v Violation, budget int
 		}
 		rf.OrigLen = len(ids)
 		s := o.Spec
+		// catalogue-style worlds: the violating step alone usually reproduces
+		s.Keep, s.KeepSet = []int{v.Step}, true
+		if r, ok := try(s); ok {
+			best, bestSpec = r, s
+			rf.MinLen = 1
+			break
+		}
 		s.Keep, s.KeepSet = cut, true
 		if r, ok := try(s); ok {
 			best, bestSpec, ids = r, s, cut
